@@ -444,15 +444,23 @@ func (x *Exec) mergeStates(sts []*State) *State {
 	for _, k := range ks {
 		srt := x.heapSort[k]
 		var acc *Term
+		same := true
 		for i := len(sts) - 1; i >= 0; i-- {
 			h := x.heapArr(sts[i], k, srt)
 			if acc == nil {
 				acc = h
 			} else {
+				if h != acc && h.String() != acc.String() {
+					same = false
+				}
 				acc = Ite(sts[i].guard, h, acc)
 			}
 		}
-		out.heap[k] = x.name("h_"+shortKey(k), acc)
+		if same {
+			out.heap[k] = acc // untouched on every incoming path: keep the term (and its structure)
+		} else {
+			out.heap[k] = x.name("h_"+shortKey(k), acc)
+		}
 	}
 	cells := map[*Cell]bool{}
 	for _, s := range sts {
